@@ -11,6 +11,10 @@ import compiler_gen as cg
 GOING_WRONG = {"InvalidType", "UnresolvedTarget", "InvalidAddress", "StackUnderflow", "NotDefined", "AlreadyDefined",
                "InvalidStructMember", "InvalidSchema", "BadState", "CallStack", "InvalidInstruction", "Bug"}
 ENVELOPE = ('T', 'Envelope', {})
+# single edits after which a policy cannot be well-typed: the compiler has to reject it
+MUST_REJECT = {'undefined-variable', 'call-arity', 'undefined-function', 'match-binding-in-alternation', 'struct-missing-field',
+               'struct-duplicate-field', 'unknown-field', 'if-non-bool', 'check-non-bool', 'recall-arity', 'debug-assert-in-finish',
+               'create-misplaced', 'emit-misplaced', 'let-in-finish', 'recall-misplaced', 'fact-literal-short', 'emit-non-effect'}
 
 
 def gen_stream(ctx, n, depth):
@@ -27,10 +31,18 @@ def gen_stream(ctx, n, depth):
         if len(cc.policy_text(pol)) > 7000:
             continue
         muts = []
-        for _ in range(ctx.rng.choice([0, 1, 1, 1, 2])):
-            pol, k = cg.mutate(ctx.rng, pol)
-            if k != 'none':
-                muts.append(k)
+        if ctx.rng.chance(1, 3):
+            # one edit from the kinds that always make the policy ill-typed (the places where type checking had holes)
+            for _ in range(80):
+                m, k = cg.mutate(ctx.rng, pol)
+                if k in MUST_REJECT:
+                    pol, muts = m, [k]
+                    break
+        else:
+            for _ in range(ctx.rng.choice([0, 1, 1, 2])):
+                pol, k = cg.mutate(ctx.rng, pol)
+                if k != 'none':
+                    muts.append(k)
         out.append((g, pol, kind, tuple(muts)))
     return out
 
@@ -62,6 +74,15 @@ def run(ctx):
             d["accepted" if l.startswith("ok ") else "rejected"] += 1
         else:
             bad_lines.append(l[:200])
+
+    # ---------------- direct oracle: an edit that makes a policy ill-typed must be rejected
+    slipped = [(p, m) for ((g, p, k, m), l) in zip(stream, res) if l.startswith("ok ") and len(m) == 1 and m[0] in MUST_REJECT]
+    for (p, m) in slipped[:3]:
+        ctx.violation("the compiler accepted an ill-typed policy (edit: %s)" % m[0],
+                      {"policy": cc.policy_text(p), "mutations": list(m),
+                       "contradicts": "accepted_is_safe_full_stmt (coq/proofs/CompileMachine.v): acceptance must imply safety; Typing.v rejects this policy",
+                       "replay_cmd": "echo '%s' | build/target/debug/c24" % cc.compile_line(p)})
+    ctx.oblige("oracle:L1:ill-typed-edits-rejected", not slipped, "%d accepted" % len(slipped))
 
     # ---------------- L1: acceptance (and error class) of the real compiler = Typing.v, on the mutant stream
     mism, cerr = cc.coq_mismatches(vlib, ctx, "c24_l1", cc.COQ_HEADER, usable, cc.l1_render, shard=40)
